@@ -81,6 +81,7 @@ def expand(records):
                 if cb["cmpd"]:
                     for tgt in r["targets"]:
                         add(f="asg", tgt=tgt, a=a, b=b, la=la, lb=lb)
+    grid[0]["uni_active"] = sum(1 for r in records if r.get("kind") == "single" and r["a"] > grid[0]["ngrid"])
     return grid[0], cases
 
 
@@ -168,7 +169,9 @@ def rerun_hangs(pid, cases, results, driver):
 
 
 def run(rep):
+    import time
     quick = rep.tier == "quick"
+    t_0 = time.time()
     # 1. model-check the reference's own laws while TLC enumerates the case space
     res = run_tlc(rep.pid, "C06", ENUM_CFG, env={"TIER": rep.tier}, timeout=1500, tag="enum", heap="4g")
     rep.add_tlc("C06.Enum+Laws", res)
@@ -184,7 +187,7 @@ def run(rep):
     rep.spaces.append({"space": "the same with the operands written as source literals, every spelling (TLC-enumerated)",
                        "cases": nlit, "complete": True})
     rep.spaces.append({"space": "strings with a look-alike character in every position of the numeric-string grammar x operators (TLC-enumerated)",
-                       "strings": len(vals) - ngrid, "cases": nuni, "complete": True})
+                       "strings": grid["uni_active"], "strings_all_tiers": len(vals) - ngrid, "cases": nuni, "complete": True})
     # seeded random expression trees over the grid (spec-level JSON, judged by TLC)
     rnd = random.Random(rep.seed)
     ntrees = 1500 if quick else 30000
@@ -196,6 +199,7 @@ def run(rep):
                       "la": [], "lb": [], "lc": [], "intrep": False, "tree": t})
     rep.spaces.append({"space": "random expression trees of depth <= 4 over the grid (seeded)", "cases": len(trees), "complete": False})
     allc = cases + trees
+    t_1 = time.time()
     # 2. replay into the engine
     results = engine.run_cases(rep.pid, allc, driver="checks.c06_driver:run_case")
     results = rerun_hangs(rep.pid, allc, results, "checks.c06_driver:run_case")
@@ -209,7 +213,9 @@ def run(rep):
     if len(recs) != len(allc):
         raise Machinery("engine returned %d results for %d cases" % (len(recs), len(allc)))
     # 3. judge in TLC
+    t_2 = time.time()
     verdicts, st, tr = judge_batched(rep.pid, "C06", recs, JUDGE_CFG)
+    rep.notes["phase_wall_s"] = {"enumerate+laws": round(t_1 - t_0, 1), "engine": round(t_2 - t_1, 1), "judge": round(time.time() - t_2, 1)}
     rep.add_judge(len(recs), st, tr)
     rep.evaluations = len(recs)
     got = {v["id"]: v for v in verdicts}
